@@ -5,8 +5,8 @@ C02, cover tree construction, part 3: `batch_insert` meets its contract `InsOk` 
 sample exactly once.
 
 Hypotheses: the callback vanishes on the diagonal and is not negative (every metric; symmetry and the triangle
-inequality are not needed here), `dist_of_scale` is not negative, and the largest distance `maxd` from the first point
-is covered, `maxd ≤ dist_of_scale(get_scale(maxd))` (`topCovered`; otherwise `batch_create` drops samples).
+inequality are not needed here) and `dist_of_scale` is not negative.  That the top level covers the largest distance
+from the first point follows from the loop raising the top scale (`Proofs/CoverBuildCreate.lean`, repair F-COVER-TOP).
 -/
 set_option linter.unusedSectionVars false
 namespace TapkeeVerif.CoverBuild
